@@ -325,6 +325,11 @@ var c11Backoffs = []c11Backoff{
 	// (initial is far above T5 + the timing slack, so an uncapped first delay cannot hide in the margin)
 	{6 * time.Second, 2, 60 * time.Millisecond},
 	{5 * time.Second, 1, 50 * time.Millisecond},
+	// huge multipliers: the un-clamped product leaves the int64 range after a few failed dials; every delay must
+	// still be T5 (a wrapped, negative delay sleeps for zero time: back-to-back dials; after seeded change C11b-2)
+	{10 * time.Millisecond, 1000, 30 * time.Millisecond},
+	{20 * time.Millisecond, 1e6, 40 * time.Millisecond},
+	{5 * time.Millisecond, 1e300, 25 * time.Millisecond},
 }
 
 const (
